@@ -156,10 +156,12 @@ fn pass_2_internal(segment: &Segment, common_context: &CommonContext) -> Result<
                     Some(register) => register,
                     None => bail!("{} must be defined as a register (r0 - r31), {}", alias, line),
                 };
-                if let Some(_) = common_context.set_def(alias.to_lowercase(), register) {
+                // (set_def refuses a name that is taken, it does not replace)
+                if common_context.exist(&alias.to_lowercase()) {
                     // TODO: add display current string of mistake and previous location
                     bail!("Identifier {} is used twice, {}", alias, line);
                 }
+                common_context.set_def(alias.to_lowercase(), register);
             }
             Item::Undef(alias) => {
                 if let None = common_context
